@@ -111,7 +111,7 @@ def build_properties(only=None):
             continue
         vo = path[:-2] + '.vo'
         logf = os.path.join(WORK, 'assumptions', pid + '.txt')
-        fresh = os.path.exists(vo) and os.path.exists(logf) and os.path.getmtime(vo) >= max(dev_time, os.path.getmtime(path))
+        fresh = os.path.exists(vo) and os.path.exists(logf) and os.path.getmtime(vo) >= max(dev_time, os.path.getmtime(path)) and os.path.getmtime(logf) >= os.path.getmtime(vo)
         if not fresh:
             rc, log = sh('timeout 1800 coqc -Q . JV Properties/%s.v' % pid, cwd=COQ, timeout=1900)
             open(logf, 'w').write(log)
@@ -164,9 +164,25 @@ def ensure_built(props=None, need_model=True):
         b = Built()
         t0 = time.time()
         b.jvh, b.tagged, b.taglog = build_harness()
-        b.tables_changed = regenerate_tables(b)
+        # a broken translator or a table lemma that no longer holds is recorded, and the build falls back to the
+        # committed tables so that the check can still search for a concrete failing input
+        b.broken = []
+        try:
+            b.tables_changed = regenerate_tables(b)
+        except BuildError as e:
+            b.broken.append((e.stage, e.detail))
+            b.tables_changed = False
+            sh(['git', '-C', VERIF, 'checkout', '--', 'coq/Gen'])
         b.forbidden = forbidden_scan()
-        b.coq_log = build_coq()
+        try:
+            b.coq_log = build_coq()
+        except BuildError as e:
+            rc, out = sh(['git', '-C', VERIF, 'status', '--porcelain', 'coq/Gen'])
+            if not out.strip():
+                raise
+            b.broken.append((e.stage + ' (with the tables regenerated from the current tree)', e.detail))
+            sh(['git', '-C', VERIF, 'checkout', '--', 'coq/Gen'])
+            b.coq_log = build_coq()
         b.props = build_properties(props)
         b.model = build_model() if need_model else None
         b.wall = time.time() - t0
